@@ -35,3 +35,34 @@ CONTRACTS[T + "numba_build_skip_grams"] = dict(
         "for#6": dict(invariant=["len(coo_data) == n_windows"]),
     },
 )
+
+# ---------------------------------------------------------------- n-gram variant
+NGK = "vectorizers/ngram_token_cooccurence_vectorizer.py::"
+_NG_PRE = [
+    "n_unique_tokens >= 1", "ngram_size >= 1",
+    "len(window_reversals) == len(window_size_array) and len(mix_weights) == len(window_size_array) and len(array_lengths) == len(window_size_array)",
+    # every n-gram index indexes the per-n-gram radius table; radii non-negative; buffers have at least two slots
+    "dict_values_in(ngram_dictionary, 0, window_size_array.shape[1])",
+    "forall(0, window_size_array.shape[0], lambda a: forall(0, window_size_array.shape[1], lambda b: window_size_array[a, b] >= 0))",
+    "forall(0, len(array_lengths), lambda a: array_lengths[a] >= 2)",
+]
+CONTRACTS[NGK + "numba_build_skip_grams"] = dict(
+    params=dict(token_sequences="list[int[]]", window_size_array="int[,]", window_reversals="bool[]", kernel_functions="funcs", kernel_args="opaque",
+                mix_weights="real[]", normalize_windows="bool", n_unique_tokens="int", array_lengths="int[]", ngram_dictionary="dict[str,int]",
+                ngram_size="int", array_to_tuple="func"),
+    symbolic_consts={"COO_QUICKSORT_LIMIT": "int; COO_QUICKSORT_LIMIT >= 1"},
+    func_params={"kernel_functions": dict(returns="real[]", ensures=["len(ret) == len(arg0)"]), "array_to_tuple": dict(returns="keyfn")},
+    abstract_macros=["WF"],
+    ghost_after=[("@assign:coo_data", 1, "intro_all('WF', coo_data)\nassert forall(0, n_windows, lambda c: coo_data[c].ind[0] == 0 and len(coo_data[c].key) >= 2)")],
+    requires=_NG_PRE,
+    ensures=["len(result) == len(window_size_array)"],
+    loops={
+        "for#1": dict(invariant=[_COO_INV, "len(window_reversal_const) == len(window_reversals)"]),
+        "for#2": dict(invariant=[_COO_INV, "len(window_reversal_const) == len(window_reversals)",
+                                 "forall(0, len(window_reversal_const), lambda t: window_reversal_const[t] == 0 or window_reversal_const[t] == 1)"]),
+        "for#3": dict(invariant=[_COO_INV, "len(windows) == n_windows and len(kernels) == n_windows", "forall(0, n_windows, lambda t: len(kernels[t]) == len(windows[t]))"]),
+        "for#4": dict(invariant=[_COO_INV, "len(windows) == n_windows and len(kernels) == n_windows", "forall(0, n_windows, lambda t: len(kernels[t]) == len(windows[t]))",
+                                 "len(this_ker) == len(window)"]),
+        "for#5": dict(invariant=["len(coo_data) == n_windows"]),
+    },
+)
